@@ -37,7 +37,7 @@ def chg(*names):
 TSOURCE_PROPS = [
     rw('ival', 'int'), rw('jval', 'int'), rw('uval', 'uint'), rw('dval', 'double'),
     rw('flag', 'bool'), rw('flagB', 'bool'), rw('text', 'QString'), rw('textB', 'QString'),
-    rw('mode', 'Mode'), rw('opts', 'Opts'), rw('ptr', 'TSource*'), rw('sub', 'TSub*'),
+    rw('mode', 'Mode'), rw('opts', 'Opts'), rw('optOne', 'Opt'), rw('ptr', 'TSource*'), rw('sub', 'TSub*'),
     rw('items', 'QStringList'), rw('vval', 'QVariant'), rw('level', 'Level'),
     prop('konst', 'int', 'konst', constant=True),
     prop('quiet', 'int', 'quiet', 'setQuiet'),                     # readable+writable, no NOTIFY, not CONSTANT
@@ -81,7 +81,7 @@ classes = [
         enums=[enum('Mode', ['ModeA', 'ModeB', 'ModeC']), enum('Level', ['Low', 'Mid', 'High'], isclass=True), enum('Opt', ['OptX', 'OptY', 'OptZ']),
                enum('Opts', ['OptX', 'OptY', 'OptZ'], flag=True, alias='Opt')],
         props=TSOURCE_PROPS + [rw('gad', 'TGadget')],
-        signals=chg('jval', 'uval', 'dval', 'flag', 'flagB', 'text', 'textB', 'mode', 'opts', 'ptr', 'sub', 'items',
+        signals=chg('jval', 'uval', 'dval', 'flag', 'flagB', 'text', 'textB', 'mode', 'opts', 'optOne', 'ptr', 'sub', 'items',
                     'vval', 'rdonly', 'gad', 'level', 'fin')
         + [meth('ivalChanged', args=['int']),
            meth('fired', args=['int', 'QString']), meth('fired', args=['int']),      # default-argument pair
